@@ -6,6 +6,10 @@ import json, os, glob, collections
 V = "/verif"
 out = []
 props = [json.loads(l) for l in open(f"{V}/properties.jsonl")]
+k0 = json.load(open(f"{V}/known_findings.json"))
+nfix = sum(1 for e in k0 if e["status"] == "fixed"); ncommits = len({e.get("commit") for e in k0 if e["status"] == "fixed"})
+nknown = sum(1 for e in k0 if e["status"] == "known"); nseeds = len(glob.glob(f"{V}/seeded/*/meta.json"))
+out.append(f"**Generated summary:** {nfix} repaired constructs in {ncommits} `fix:` commits, {nknown} known findings, {nseeds} seeded changes kept (all reported by their target property's check on the current tree unless the table says otherwise).\n")
 out.append("### 9.2 Rules as built (from the last evidence files)\n")
 out.append("| property | rule | instances (floor) | what is decided |")
 out.append("|---|---|---|---|")
